@@ -8,8 +8,8 @@ use std::collections::VecDeque;
 
 use micro_http::{Body, ConnectionError, Response, StatusCode, Version};
 
-use crate::conn::{guarded, Runner};
-use crate::stream::WriteEv;
+use crate::conn::{guarded, Runner, RR};
+use crate::stream::{ReadEv, WriteEv};
 use crate::util::{Fp, Rng, J};
 use crate::Ctx;
 
@@ -20,12 +20,16 @@ pub enum Act {
     W(WriteEv),
     /// three EINTR results queued on the stream, then one try_write
     WBurst,
+    /// one try_read that receives a complete PUT with `Expect: 100-continue` (HTTP/1.<v>): the
+    /// connection itself enqueues the interim response, behind whatever is already queued
+    ReadExpect(u8),
 }
 
 fn act_name(a: &Act) -> String {
     match a {
         Act::Enq(i) => format!("enq{}", i),
         Act::WBurst => "w:burst3xEINTR".into(),
+        Act::ReadExpect(v) => format!("readexpect{}", v),
         Act::W(WriteEv::Accept(k)) => format!("w:accept{}", k),
         Act::W(WriteEv::AcceptAllBut(j)) => format!("w:len-{}", j),
         Act::W(WriteEv::AcceptHalf) => "w:half".into(),
@@ -39,6 +43,9 @@ fn act_name(a: &Act) -> String {
 fn parse_act(s: &str) -> Option<Act> {
     if let Some(r) = s.strip_prefix("enq") {
         return r.parse().ok().map(Act::Enq);
+    }
+    if let Some(r) = s.strip_prefix("readexpect") {
+        return r.parse().ok().map(Act::ReadExpect);
     }
     if s == "w:burst3xEINTR" {
         return Some(Act::WBurst);
@@ -126,6 +133,30 @@ pub fn exec(ctx: &mut Ctx, acts: &[Act]) -> bool {
                 }
                 if r.script.write_calls() != writes_before {
                     fault = Some(("enqueue-wrote".into(), "enqueue_response touched the stream".into()));
+                    break;
+                }
+            }
+            Act::ReadExpect(v) => {
+                let version = if *v == 0 { Version::Http10 } else { Version::Http11 };
+                let req = format!("PUT /e HTTP/1.{}\r\nExpect: 100-continue\r\nContent-Length: 2\r\n\r\nab", if *v == 0 { 0 } else { 1 });
+                let so = r.feed(ReadEv::Data(req.into_bytes(), Vec::new()));
+                if let RR::Panic(p) = &so.res {
+                    fault = Some(("panic".into(), format!("try_read panicked: {}", p)));
+                    break;
+                }
+                if so.res == RR::Ok && so.delivered.len() == 1 {
+                    ctx.rep.count("interim_responses_enqueued_by_the_connection");
+                    if cur.is_some() || !queue.is_empty() {
+                        ctx.rep.count("interim_responses_enqueued_behind_pending_output");
+                    }
+                    queue.push_back(serialize(&Response::new(version, StatusCode::Continue)));
+                } else {
+                    // not this property's business (C02/C13); the shadow cannot follow
+                    ctx.rep.count("readexpect_not_delivered");
+                    break;
+                }
+                if r.script.write_calls() != writes_before {
+                    fault = Some(("read-wrote".into(), "try_read wrote to the stream".into()));
                     break;
                 }
             }
@@ -306,6 +337,43 @@ pub fn run(ctx: &mut Ctx) {
             ctx.rep.sample(case_json(&acts));
         }
     }
+    // ---- the same with output the connection enqueues itself (interim responses) in the alphabet
+    const ALPHABET2: [Act; 8] = [
+        Act::Enq(1),
+        Act::ReadExpect(1),
+        Act::ReadExpect(0),
+        Act::W(WriteEv::Accept(1)),
+        Act::W(WriteEv::AcceptAllBut(1)),
+        Act::W(WriteEv::Accept(usize::MAX)),
+        Act::W(WriteEv::Interrupted),
+        Act::W(WriteEv::WouldBlock),
+    ];
+    let depth2: u32 = if quick { 6 } else { 8 };
+    let base2 = ALPHABET2.len() as u64;
+    for idx in 0..base2.pow(depth2) {
+        if !ctx.mine(idx) {
+            continue;
+        }
+        let mut x = idx;
+        let mut acts = Vec::with_capacity(depth2 as usize + 3);
+        for _ in 0..depth2 {
+            acts.push(ALPHABET2[(x % base2) as usize]);
+            x /= base2;
+        }
+        if !acts.iter().any(|a| matches!(a, Act::ReadExpect(_))) {
+            continue; // covered by the first pass
+        }
+        for _ in 0..3 {
+            acts.push(Act::W(WriteEv::Accept(usize::MAX)));
+        }
+        ctx.rep.count("exhaustive_sequences_with_interim_responses");
+        if exec(ctx, &acts) {
+            violations_here += 1;
+            if violations_here > 20 {
+                break;
+            }
+        }
+    }
     // ---- single responses: every k in 1..len at the first and at the second write
     let mut idx = 0u64;
     for id in [0u8, 1, 2, 5, 16, 17] {
@@ -341,6 +409,11 @@ pub fn run(ctx: &mut Ctx) {
             } else {
                 if rng.chance(1, 25) {
                     acts.push(Act::WBurst);
+                    continue;
+                }
+                if outstanding < 6 && rng.chance(1, 12) {
+                    acts.push(Act::ReadExpect(rng.below(2) as u8));
+                    outstanding += 1;
                     continue;
                 }
                 let ev = match rng.below(14) {
